@@ -4,6 +4,7 @@ package c02
 import (
 	"fmt"
 	"strings"
+	"time"
 
 	"github.com/trajectoryjp/spatial_id_go/v4/common/enum"
 	"github.com/trajectoryjp/spatial_id_go/v4/common/object"
@@ -14,67 +15,93 @@ import (
 	w "verif/harness/wire"
 )
 
-func fnPointOnEid() *run.Fn {
-	return &run.Fn{Name: "GetPointOnExtendedSpatialId", Invoke: func(a []w.Val) w.Val {
-		ps, err := shape.GetPointOnExtendedSpatialId(w.AsStr(a[0]), enum.PointOption(w.AsInt(a[1])))
-		return w.WithErr(PointsVal(ps), err)
-	}}
+// A step performs one entry's calls and returns what was observed, a function that reads the same answer once more from the objects the
+// library handed out (nil when nothing is held), and a function that scribbles on everything the caller owns after the call: the returned
+// slices and objects, and the point objects it passed in.
+type stepFn func(a []w.Val) (obs w.Val, again func() w.Val, mutate func())
+
+func scribblePoints(ps []*object.Point) {
+	for i, p := range ps {
+		if p != nil {
+			p.SetLon(12.5)
+			p.SetLat(-33.25)
+			p.SetAlt(777)
+		}
+		ps[i] = nil
+	}
 }
-func fnPointOnSid() *run.Fn {
-	return &run.Fn{Name: "GetPointOnSpatialId", Invoke: func(a []w.Val) w.Val {
-		ps, err := shape.GetPointOnSpatialId(w.AsStr(a[0]), enum.PointOption(w.AsInt(a[1])))
-		return w.WithErr(PointsVal(ps), err)
-	}}
+func scribbleStrings(l []string) {
+	for i := range l {
+		l[i] = "9/9/9/9/9"
+	}
 }
 
-// CentreRoundTrip: [id; sid?] -> [centre; ID of that centre at the ID's own zooms]
-func fnRoundTrip() *run.Fn {
-	return &run.Fn{Name: "CentreRoundTrip", Invoke: func(a []w.Val) w.Val {
-		id, sid := w.AsStr(a[0]), w.AsBool(a[1])
-		var ps []*object.Point
-		var err error
-		if sid {
-			ps, err = shape.GetPointOnSpatialId(id, enum.Center)
-		} else {
-			ps, err = shape.GetPointOnExtendedSpatialId(id, enum.Center)
+func pointsStep(call func() ([]*object.Point, error)) (w.Val, func() w.Val, func()) {
+	ps, err := call()
+	if err != nil {
+		return w.WithErr(PointsVal(ps), err), nil, func() { scribblePoints(ps) }
+	}
+	return PointsVal(ps), func() w.Val { return PointsVal(ps) }, func() { scribblePoints(ps) }
+}
+
+func stepPointOnEid(a []w.Val) (w.Val, func() w.Val, func()) {
+	return pointsStep(func() ([]*object.Point, error) {
+		return shape.GetPointOnExtendedSpatialId(w.AsStr(a[0]), enum.PointOption(w.AsInt(a[1])))
+	})
+}
+func stepPointOnSid(a []w.Val) (w.Val, func() w.Val, func()) {
+	return pointsStep(func() ([]*object.Point, error) {
+		return shape.GetPointOnSpatialId(w.AsStr(a[0]), enum.PointOption(w.AsInt(a[1])))
+	})
+}
+
+// CentreRoundTrip: [id; sid?] -> [centre; ID of that centre at the ID's own zooms; the eight vertices of the same ID]
+func stepRoundTrip(a []w.Val) (w.Val, func() w.Val, func()) {
+	id, sid := w.AsStr(a[0]), w.AsBool(a[1])
+	var ps, vs []*object.Point
+	var back []string
+	var err error
+	mutate := func() { scribblePoints(ps); scribblePoints(vs); scribbleStrings(back) }
+	if sid {
+		ps, err = shape.GetPointOnSpatialId(id, enum.Center)
+	} else {
+		ps, err = shape.GetPointOnExtendedSpatialId(id, enum.Center)
+	}
+	if err != nil {
+		return w.WithErr(w.Nil{}, err), nil, mutate
+	}
+	if len(ps) != 1 {
+		return w.L(PointsVal(ps)), nil, mutate
+	}
+	if sid {
+		vs, err = shape.GetPointOnSpatialId(id, enum.Vertex)
+	} else {
+		vs, err = shape.GetPointOnExtendedSpatialId(id, enum.Vertex)
+	}
+	if err != nil {
+		return w.WithErr(w.Nil{}, err), nil, mutate
+	}
+	if sid {
+		attrs, e := shape.VerifGetExtendedSpatialIdAttrs(sidToEid(id))
+		if e != nil {
+			return w.WithErr(w.Nil{}, e), nil, mutate
 		}
-		if err != nil {
-			return w.WithErr(w.Nil{}, err)
+		back, err = shape.GetSpatialIdsOnPoints(ps, attrs[0])
+	} else {
+		attrs, e := shape.VerifGetExtendedSpatialIdAttrs(id)
+		if e != nil {
+			return w.WithErr(w.Nil{}, e), nil, mutate
 		}
-		if len(ps) != 1 {
-			return w.L(PointsVal(ps))
-		}
-		var vs []*object.Point
-		if sid {
-			vs, err = shape.GetPointOnSpatialId(id, enum.Vertex)
-		} else {
-			vs, err = shape.GetPointOnExtendedSpatialId(id, enum.Vertex)
-		}
-		if err != nil {
-			return w.WithErr(w.Nil{}, err)
-		}
-		var back []string
-		if sid {
-			attrs, e := shape.VerifGetExtendedSpatialIdAttrs(sidToEid(id))
-			if e != nil {
-				return w.WithErr(w.Nil{}, e)
-			}
-			back, err = shape.GetSpatialIdsOnPoints(ps, attrs[0])
-		} else {
-			attrs, e := shape.VerifGetExtendedSpatialIdAttrs(id)
-			if e != nil {
-				return w.WithErr(w.Nil{}, e)
-			}
-			back, err = shape.GetExtendedSpatialIdsOnPoints(ps, attrs[0], attrs[3])
-		}
-		if err != nil {
-			return w.WithErr(w.Nil{}, err)
-		}
-		if len(back) != 1 {
-			return w.L(PointVal(ps[0]), w.Strs(back))
-		}
-		return w.L(PointVal(ps[0]), w.S(back[0]), PointsVal(vs))
-	}}
+		back, err = shape.GetExtendedSpatialIdsOnPoints(ps, attrs[0], attrs[3])
+	}
+	if err != nil {
+		return w.WithErr(w.Nil{}, err), nil, mutate
+	}
+	if len(back) != 1 {
+		return w.L(PointVal(ps[0]), w.Strs(back)), nil, mutate
+	}
+	read := func() w.Val { return w.L(PointVal(ps[0]), w.S(back[0]), PointsVal(vs)) }
+	return read(), read, mutate
 }
 
 func sidToEid(s string) string {
@@ -86,44 +113,94 @@ func sidToEid(s string) string {
 }
 
 // SharedFaces: [idA; idB; axis] -> [vertices of A; vertices of B]
-func fnShared() *run.Fn {
-	return &run.Fn{Name: "SharedFaces", Invoke: func(a []w.Val) w.Val {
-		pa, err := shape.GetPointOnExtendedSpatialId(w.AsStr(a[0]), enum.Vertex)
-		if err != nil {
-			return w.WithErr(w.Nil{}, err)
-		}
-		pb, err := shape.GetPointOnExtendedSpatialId(w.AsStr(a[1]), enum.Vertex)
-		if err != nil {
-			return w.WithErr(w.Nil{}, err)
-		}
-		return w.L(PointsVal(pa), PointsVal(pb))
-	}}
+func stepShared(a []w.Val) (w.Val, func() w.Val, func()) {
+	var pa, pb []*object.Point
+	mutate := func() { scribblePoints(pa); scribblePoints(pb) }
+	pa, err := shape.GetPointOnExtendedSpatialId(w.AsStr(a[0]), enum.Vertex)
+	if err != nil {
+		return w.WithErr(w.Nil{}, err), nil, mutate
+	}
+	pb, err = shape.GetPointOnExtendedSpatialId(w.AsStr(a[1]), enum.Vertex)
+	if err != nil {
+		return w.WithErr(w.Nil{}, err), nil, mutate
+	}
+	read := func() w.Val { return w.L(PointsVal(pa), PointsVal(pb)) }
+	return read(), read, mutate
 }
 
 // the vertical point of (f, v), obtained the way the public function obtains it
 func vpoint(a []w.Val) object.VerticalPoint {
 	return shape.VerifGetAltitudeOnVerticalIndexAndZoom(w.AsInt(a[3]), w.AsInt(a[4]))
 }
-func fnVertexHook() *run.Fn {
-	return &run.Fn{Name: "VertexHook", Invoke: func(a []w.Val) w.Val {
-		return PointsVal(shape.VerifGetVertexOnVoxelOffset(w.AsInt(a[0]), w.AsInt(a[1]), w.AsInt(a[2]), vpoint(a)))
+func stepVertexHook(a []w.Val) (w.Val, func() w.Val, func()) {
+	ps := shape.VerifGetVertexOnVoxelOffset(w.AsInt(a[0]), w.AsInt(a[1]), w.AsInt(a[2]), vpoint(a))
+	return PointsVal(ps), func() w.Val { return PointsVal(ps) }, func() { scribblePoints(ps) }
+}
+func stepCentreHook(a []w.Val) (w.Val, func() w.Val, func()) {
+	ps := []*object.Point{shape.VerifGetCenterPointOnVoxelOffset(w.AsInt(a[0]), w.AsInt(a[1]), w.AsInt(a[2]), vpoint(a))}
+	return PointsVal(ps), func() w.Val { return PointsVal(ps) }, func() { scribblePoints(ps) }
+}
+func stepAltHook(a []w.Val) (w.Val, func() w.Val, func()) {
+	vp := shape.VerifGetAltitudeOnVerticalIndexAndZoom(w.AsInt(a[0]), w.AsInt(a[1]))
+	return w.L(w.F(vp.Alt), w.F(vp.Resolution)), nil, func() {}
+}
+func stepAttrsHook(a []w.Val) (w.Val, func() w.Val, func()) {
+	r, err := shape.VerifGetExtendedSpatialIdAttrs(w.AsStr(a[0]))
+	mutate := func() {
+		for i := range r {
+			r[i] = -7
+		}
+	}
+	if err != nil {
+		return w.WithErr(w.Ints(r), err), nil, mutate
+	}
+	return w.Ints(r), func() w.Val { return w.Ints(r) }, mutate
+}
+
+var steps = map[string]stepFn{
+	"GetPointOnExtendedSpatialId": stepPointOnEid, "GetPointOnSpatialId": stepPointOnSid, "CentreRoundTrip": stepRoundTrip,
+	"SharedFaces": stepShared, "VertexHook": stepVertexHook, "CentreHook": stepCentreHook, "AltHook": stepAltHook, "AttrsHook": stepAttrsHook,
+}
+
+func single(name string) *run.Fn {
+	f := steps[name]
+	return &run.Fn{Name: name, Invoke: func(a []w.Val) w.Val {
+		obs, _, _ := f(a)
+		return obs
 	}}
 }
-func fnCentreHook() *run.Fn {
-	return &run.Fn{Name: "CentreHook", Invoke: func(a []w.Val) w.Val {
-		return w.L(PointVal(shape.VerifGetCenterPointOnVoxelOffset(w.AsInt(a[0]), w.AsInt(a[1]), w.AsInt(a[2]), vpoint(a))))
-	}}
-}
-func fnAltHook() *run.Fn {
-	return &run.Fn{Name: "AltHook", Invoke: func(a []w.Val) w.Val {
-		vp := shape.VerifGetAltitudeOnVerticalIndexAndZoom(w.AsInt(a[0]), w.AsInt(a[1]))
-		return w.L(w.F(vp.Alt), w.F(vp.Resolution))
-	}}
-}
-func fnAttrsHook() *run.Fn {
-	return &run.Fn{Name: "AttrsHook", Invoke: func(a []w.Val) w.Val {
-		r, err := shape.VerifGetExtendedSpatialIdAttrs(w.AsStr(a[0]))
-		return w.WithErr(w.Ints(r), err)
+
+// PointSequence: [steps], step = [function name; its arguments; mutate?]. The steps run back to back in this process; after a step with
+// mutate? the caller scribbles on what that call returned; at the end the answers of the other steps are read once more.
+// Observed: one [answer; answer read again at the end | Nil] per step.
+func fnSequence() *run.Fn {
+	return &run.Fn{Name: "PointSequence", Timeout: 30 * time.Second, Invoke: func(a []w.Val) w.Val {
+		sl := w.AsList(a[0])
+		obs := make([]w.Val, len(sl))
+		again := make([]func() w.Val, len(sl))
+		for i, st := range sl {
+			t := w.AsList(st)
+			f := steps[w.AsStr(t[0])]
+			if f == nil || len(t) != 3 {
+				panic("malformed step")
+			}
+			o, rd, mut := f(w.AsList(t[1]))
+			obs[i] = o
+			if w.AsBool(t[2]) {
+				mut()
+			} else {
+				again[i] = rd
+			}
+		}
+		out := make(w.List, len(sl))
+		for i := range sl {
+			var second w.Val = w.Nil{}
+			if again[i] != nil {
+				second = again[i]()
+			}
+			out[i] = w.L(obs[i], second)
+		}
+		return out
 	}}
 }
 
@@ -275,11 +352,164 @@ func idTags(i id5) []string {
 	return t
 }
 
+// ---- histories: one case = a sequence of related calls in one process (PointSequence) ----
+func stp(fn string, mut bool, args ...w.Val) w.Val { return w.L(w.S(fn), w.List(args), w.B(mut)) }
+
+// the fixed, unrelated first call of every sequence: a shrunk or replayed sequence starts from the same library state in a fresh process
+func primingStep() w.Val {
+	return stp("GetPointOnExtendedSpatialId", false, w.S("5/3/7/4/-2"), w.I(0))
+}
+
+// invalid variants that share most of their text / their key-like fields with a valid ID
+func invalidOf(g *Gen, id id5) (string, string) {
+	switch g.Intn(6) {
+	case 0:
+		return EID(id.h, id.x, id.y, 36, id.f), "bad-vzoom"
+	case 1:
+		return EID(36, id.x, id.y, id.v, id.f), "bad-hzoom"
+	case 2:
+		return fmt.Sprintf("%d/%d/%d/x/%d", id.h, id.x, id.y, id.f), "bad-field"
+	case 3:
+		return fmt.Sprintf("%d/%d/%d/%d/", id.h, id.x, id.y, id.v), "empty-field"
+	case 4:
+		return fmt.Sprintf("%d/%d/%d/%d", id.h, id.x, id.y, id.v), "bad-arity"
+	}
+	return EID(id.h, id.x, id.y, -1, id.f), "bad-vzoom"
+}
+
+func sequence(r *run.Runner, g *Gen, id id5, opt int64) {
+	mut := func() bool { return g.Chance(0.35) }
+	pt := func(i id5, o int64) w.Val { return stp("GetPointOnExtendedSpatialId", mut(), w.S(i.eid()), w.I(o)) }
+	ss := []w.Val{primingStep()}
+	tags := append(idTags(id), "sequence")
+	n := 3 + g.Intn(4)
+	for k := 0; k < n; k++ {
+		var kind string
+		switch g.Intn(14) {
+		case 0: // the identical call twice, the first answer possibly scribbled on by the caller
+			kind = "seq-identical"
+			ss = append(ss, pt(id, opt), pt(id, opt))
+		case 1:
+			kind = "seq-other-option"
+			ss = append(ss, pt(id, opt), pt(id, 1-opt))
+		case 2: // same tile, same altitude, other resolution: (v, f) and (v+1, 2f); f = 0 at two vertical zooms
+			kind = "seq-same-alt-other-res"
+			j := id
+			if j.v < 35 && g.Chance(0.7) {
+				j.v, j.f = id.v+1, 2*id.f
+			} else {
+				id.f, j.f = 0, 0
+				j.v = g.Zoom()
+			}
+			ss = append(ss, pt(id, opt), pt(j, opt))
+		case 3:
+			kind = "seq-same-tile-other-vf"
+			j := id
+			j.v = g.Zoom()
+			j.f = g.VIndex(j.v)
+			ss = append(ss, pt(id, opt), pt(j, opt))
+		case 4:
+			kind = "seq-same-vf-other-tile"
+			j := id
+			j.h = g.Zoom()
+			j.x, j.y = g.HIndex(j.h), g.HIndex(j.h)
+			ss = append(ss, pt(id, opt), pt(j, opt))
+		case 5: // same indices at another horizontal zoom
+			kind = "seq-same-xy-other-h"
+			j := id
+			m := j.x
+			if j.y > m {
+				m = j.y
+			}
+			lo := int64(0)
+			for (int64(1) << uint(lo)) <= m {
+				lo++
+			}
+			j.h = lo + g.Int63n(36-lo)
+			ss = append(ss, pt(id, opt), pt(j, opt))
+		case 6: // invalid then valid (sharing the key-like fields), then the invalid one again
+			inv, t := invalidOf(g, id)
+			kind = "seq-invalid-valid-" + t
+			ss = append(ss, stp("GetPointOnExtendedSpatialId", mut(), w.S(inv), w.I(opt)), pt(id, opt),
+				stp("GetPointOnExtendedSpatialId", mut(), w.S(inv), w.I(opt)))
+		case 7: // valid then invalid, the invalid one twice in a row
+			inv, t := invalidOf(g, id)
+			kind = "seq-valid-invalid-" + t
+			ss = append(ss, pt(id, opt), stp("GetPointOnExtendedSpatialId", mut(), w.S(inv), w.I(opt)),
+				stp("GetPointOnExtendedSpatialId", mut(), w.S(inv), w.I(1-opt)))
+		case 8: // unknown option between two good calls
+			kind = "seq-bad-option"
+			ss = append(ss, pt(id, opt), pt(id, g.Pick(2, -1, 7)), pt(id, opt))
+		case 9: // the spatial-ID form of the same voxel next to the extended form
+			kind = "seq-sid-eid"
+			j := id
+			j.v = j.h
+			j.f = g.VIndex(j.v)
+			ss = append(ss, stp("GetPointOnSpatialId", mut(), w.S(j.sid()), w.I(opt)), pt(j, opt),
+				stp("GetPointOnSpatialId", mut(), w.S(j.sid()), w.I(1-opt)))
+		case 10: // the round trip between two direct queries of the same ID
+			kind = "seq-roundtrip"
+			ss = append(ss, pt(id, 1), stp("CentreRoundTrip", mut(), w.S(id.eid()), w.B(false)), pt(id, 1))
+		case 11: // the helpers on the same tile with other vertical points, and through the public function
+			kind = "seq-hooks"
+			j := id
+			j.v = g.Zoom()
+			j.f = g.VIndex(j.v)
+			hk := "VertexHook"
+			if g.Chance(0.5) {
+				hk = "CentreHook"
+			}
+			mv := id.v // an index valid at both vertical zooms
+			if j.v < mv {
+				mv = j.v
+			}
+			ff := g.VIndex(mv)
+			ss = append(ss, stp(hk, mut(), w.I(id.x), w.I(id.y), w.I(id.h), w.I(id.f), w.I(id.v)),
+				stp(hk, mut(), w.I(id.x), w.I(id.y), w.I(id.h), w.I(j.f), w.I(j.v)), pt(j, opt),
+				stp("AltHook", false, w.I(ff), w.I(id.v)), stp("AltHook", false, w.I(ff), w.I(j.v)))
+		case 12: // the parser on the same text twice, valid and invalid
+			kind = "seq-attrs"
+			inv, _ := invalidOf(g, id)
+			if g.Chance(0.5) {
+				inv = fmt.Sprintf("%d/%d/%d/x/%d", id.h, id.x, id.y, id.f)
+			}
+			ss = append(ss, stp("AttrsHook", mut(), w.S(inv)), stp("AttrsHook", mut(), w.S(inv)),
+				stp("AttrsHook", mut(), w.S(id.eid())), stp("AttrsHook", mut(), w.S(id.eid())), pt(id, opt))
+		default: // two neighbours, then the first one again
+			kind = "seq-neighbours"
+			ww := int64(1) << uint(id.h)
+			j := id
+			if id.x+1 < ww {
+				j.x++
+				ss = append(ss, stp("SharedFaces", mut(), w.S(id.eid()), w.S(j.eid()), w.I(0)), pt(id, opt))
+			} else {
+				j.x = 0
+				ss = append(ss, stp("SharedFaces", mut(), w.S(id.eid()), w.S(j.eid()), w.I(3)), pt(id, opt))
+			}
+		}
+		tags = append(tags, kind)
+		if g.Chance(0.5) { // move on to a related voxel
+			switch g.Intn(3) {
+			case 0:
+				id.f = g.VIndex(id.v)
+			case 1:
+				id.x = g.HIndex(id.h)
+			default:
+				opt = 1 - opt
+			}
+		}
+	}
+	r.Run(run.Case{Prop: "C02", Fn: "PointSequence", Tags: tags, Args: []w.Val{w.List(ss)}})
+}
+
 func init() {
 	Scale["C02"] = 16000
 	Registry["C02"] = func(r *run.Runner, g *Gen, n int) {
 		MathOracles(r)
-		r.Register(fnPointOnEid(), fnPointOnSid(), fnRoundTrip(), fnShared(), fnVertexHook(), fnCentreHook(), fnAltHook(), fnAttrsHook())
+		for name := range steps {
+			r.Register(single(name))
+		}
+		r.Register(fnSequence())
 		for i := 0; i < n; i++ {
 			id := validID(g)
 			tags := idTags(id)
@@ -287,6 +517,10 @@ func init() {
 			tags = append(tags, Tag("option=%d", opt))
 			if i%40 == 5 { // ~2.5 % of the iterations, 5-6 calls each: >= 10 % of the cases
 				related(r, g, id, opt)
+				continue
+			}
+			if i%20 == 15 { // 5 % of the iterations: a history of 7-20 related calls judged step by step in one case
+				sequence(r, g, id, opt)
 				continue
 			}
 			switch k := g.Intn(100); {
